@@ -361,6 +361,16 @@ Error BaseAssembler::embed_label_delta(const Label& label, const Label& base, si
   // If both labels are bound within the same section it means the delta can be calculated now.
   if (label_entry.is_bound() && base_entry.is_bound() && label_entry.section_id() == base_entry.section_id()) {
     uint64_t delta = label_entry.offset() - base_entry.offset();
+
+    // The delta must be representable as either a signed or an unsigned integer of `data_size`.
+    if (data_size < 8u) {
+      uint32_t bit_count = uint32_t(data_size) * 8u;
+      uint64_t hi_bits = delta >> (bit_count - 1u);
+      if (ASMJIT_UNLIKELY(hi_bits > 1u && hi_bits != (~uint64_t(0) >> (bit_count - 1u)))) {
+        return report_error(make_error(Error::kInvalidDisplacement));
+      }
+    }
+
     writer.emit_value_le(delta, data_size);
   }
   else {
